@@ -492,3 +492,34 @@ func H_C05_repeated_ids() {
 	}
 	verifReach("C05.repeated.end")
 }
+
+
+// which object a Reopen reaches: the registered node itself (decorators included), whatever it wraps
+type wWrapReopener struct {
+	wWrap
+	reopens int
+	err     error
+}
+
+func (n *wWrapReopener) Reopen() error { n.reopens++; return n.err }
+
+func H_C20_reopen_target() {
+	b, _ := NewBroker()
+	inner := &vNode{typ: NodeTypeSink}
+	outer := &wWrapReopener{wWrap: wWrap{wPlain: wPlain{typ: NodeTypeSink}, inner: inner}}
+	if nondetBool() {
+		outer.err = &vErr{"outer-reopen"}
+	}
+	// the decorator is the sink of one pipeline, the plain node the sink of another
+	b.RegisterNode("f", &wPlain{typ: NodeTypeFormatter})
+	b.RegisterNode("w", outer)
+	b.RegisterNode("plain", inner)
+	b.RegisterPipeline(Pipeline{PipelineID: "p", EventType: "t", NodeIDs: []NodeID{"f", "w"}})
+	if nondetBool() {
+		b.RegisterPipeline(Pipeline{PipelineID: "q", EventType: "t", NodeIDs: []NodeID{"f", "plain"}})
+	}
+	err := b.Reopen(context.Background())
+	verifAssert(outer.reopens >= 1, "C20.reopen-target.registered-decorator-reopened")
+	verifAssert((err != nil) == (outer.err != nil), "C20.reopen-target.decorators-failure-reported")
+	verifReach("C20.reopen-target.end")
+}
